@@ -145,12 +145,36 @@ def rule_newline(ctx, rule="O12.4", sites=(("cutplace.rowio.delimited_rows", "r"
     text layer translates CR and CR LF to LF on reading (and LF to os.linesep on writing) before cutplace sees them."""
     model = ctx.model
     ctx.res.minimum(rule, len(sites))
+    from ..model import AnalysisError, FuncInfo
+    from .c10 import analysis
+
+    graph = analysis(model)[0].graph
+
+    def open_calls(info, depth=0, seen=None):
+        """open() calls of the function and of the repository helpers it calls (an extracted helper keeps the rule)."""
+        seen = seen if seen is not None else set()
+        if info.qualname in seen or depth > 2:
+            return []
+        seen.add(info.qualname)
+        found = []
+        for node in walk_own(info.node):
+            if isinstance(node, ast.Call):
+                if dotted(node.func) in ("io.open", "open"):
+                    found.append(node)
+                else:
+                    for target in graph.resolve_call(info, node):
+                        if isinstance(target, FuncInfo) and target.module is info.module and target.name != "__init__":
+                            found.extend(open_calls(target, depth + 1, seen))
+        return found
+
     for qualname, mode in sites:
         info = model.func(qualname)
-        calls = [n for n in walk_own(info.node) if isinstance(n, ast.Call) and dotted(n.func) in ("io.open", "open")]
+        calls = open_calls(info)
+        if not calls:
+            raise AnalysisError("%s: no open() call found in %s or its helpers" % (rule, qualname))
         what = "%s opens its text file with newline=''" % qualname.replace("cutplace.", "")
-        ok = len(calls) == 1 and any(k.arg == "newline" and isinstance(k.value, ast.Constant) and k.value.value == "" for k in calls[0].keywords) \
-            and any(k.arg == "encoding" for k in calls[0].keywords)
+        ok = all(any(k.arg == "newline" and isinstance(k.value, ast.Constant) and k.value.value == "" for k in call.keywords)
+                 and any(k.arg == "encoding" for k in call.keywords) for call in calls)
         if ok:
             ctx.res.ok(rule, what, True)
         else:
